@@ -307,6 +307,34 @@ class Puppet:
             self.blocks[nblk] = (pidx, cq)
             self.J = j2
 
+    def future_proposal(self):
+        """A proposal for a view AHEAD of the current one, justified by a valid TimeoutQC of the view before it:
+        signed by the leader of THAT view it must be accepted (the replica jumps there), signed by the leader of the
+        replica's current view (when different) it must be refused as InvalidLeader."""
+        rng, V = self.rng, self.V
+        k = rng.range(1, 3)
+        W = V + k                      # the proposal's view; its justification is for W - 1
+        t = M.timeout(M.view(G, E, W - 1), self.my_vote if rng.chance(1, 2) else None, self.last_cqc)
+        idx = self.quorum_subset()
+        tq = M.tqc(M.view(G, E, W - 1), [(t, [i in idx for i in range(self.n)])], [M.sig_timeout(self.c[i][0], t) for i in idx])
+        j = {"timeout": tq}
+        imp = self.implied(j)
+        nblk, oh = imp
+        pid = oh if oh is not None else self.fresh_pid()
+        prop = {"proposal": {"payload": None if oh is not None else pid, "j": j}}
+        wrong = self.leader(V)
+        if wrong != self.leader(W) and rng.chance(1, 2):
+            self.note("proposal:future_view_signed_by_current_leader")
+            self.msg(wrong, prop)
+        if rng.chance(2, 3):
+            self.note("proposal:future_view")
+            self.msg(self.leader(W), prop)
+            # the puppet follows: the replica is now in view W having voted
+            self.my_vote = M.commit(M.view(G, E, W), M.header(nblk, pid))
+            self.V, self.J = W, j
+            # everybody else times out in W so that the scenario continues from a consistent state
+            self.timeout_round()
+
     def my_vote_old(self, i):
         return self.my_vote if self.rng.chance(2, 3) else None
 
@@ -416,7 +444,9 @@ class Puppet:
             start = len(self.ops)
             if flood and self.rng.chance(1, 2):
                 self.flood_burst(self.fl_turns)
-            if self.rng.chance(7, 10) and self.J is not None:
+            if self.J is not None and not flood and self.rng.chance(1, 9):
+                self.future_proposal()
+            elif self.rng.chance(7, 10) and self.J is not None:
                 self.commit_round()
             else:
                 self.timeout_round()
